@@ -578,6 +578,12 @@ func (l *Lexer) readChar() {
 	l.shouldResetCol = l.char == '\n'
 }
 
+// InCode reports whether the lexer is inside "{{ }}" or inside the
+// arguments of a directive, i.e. not in HTML.
+func (l *Lexer) InCode() bool {
+	return !l.isHTML
+}
+
 // isEOF reports whether all input has been read. A zero byte
 // in the input is an ordinary character, not the end of it.
 func (l *Lexer) isEOF() bool {
